@@ -496,7 +496,13 @@ func c06Run(c c06Case) (res c06Result) {
 	}
 	// (3) no spurious rewind: every recorded rewind is for a tracked block whose hash a fork really replaced
 	evs, tracked := reorgEventsFull(rdPath)
+	seenTracked := map[common.Hash]int{}
 	for k, e := range evs {
+		seenTracked[tracked[k]]++
+		if seenTracked[tracked[k]] > 1 && c.RestartAt < 0 {
+			res.verdict = fmt.Sprintf("the node was rewound to block %d more than once for the same replaced block version %s: the second rewind had nothing new to undo", e, tracked[k].Hex()[:12])
+			return
+		}
 		if !replacedHashes[tracked[k]] {
 			res.verdict = fmt.Sprintf("a rewind to block %d was recorded for tracked hash %s, but no fork ever replaced a block with that hash", e, tracked[k].Hex()[:12])
 			return
